@@ -47,7 +47,7 @@ def check(ctx):
         if f is None:
             ctx.missing("R-SIB", adt, "subscribe", "subscribe of %s not found" % adt); continue
         ctx.fns_touched.add(f.id)
-        shared.slot_waiter(ctx, f.id, ao("store", ED + ".co"), Call(A("load"), on=IOF, transitive=False), flag_nonzero, Call(re.escape(ED) + "::fast_schedule", transitive=False),
+        shared.slot_waiter(ctx, f.id, Call(AO + "store", on=ED + ".co", transitive=True), Call(A("load"), on=IOF, transitive=False), flag_nonzero, Call(re.escape(ED) + "::fast_schedule", transitive=False),
                            "subscribe:" + short, "%s::subscribe" % short, "io_flag.load() != 0")
         # done()
         d = ctx.prog.fn(adt + "::done")
